@@ -20,10 +20,12 @@ ROOT = {"t": "builtin", "k": "root"}
 
 RULE = ("histories of 6-24 ops over a universe of 3-7 identifiers drawn from types {a, ab} and keys that are prefixes/"
         "suffixes of one another (1, 10, 21, 1-, >1, 1:2 ...), ~7% with malformed ids (empty key/type), plus a few "
-        "small histories (10 in the quick tier, 5% in the thorough tier) using keys that contain the separator '->'; ops = define/delete resource, define relationship "
+        "small histories (10 in the quick tier, 5% in the thorough tier) using keys that contain the separator '->'; ops = define/delete resource (single and batches mixing missing / existing / repeated ids), define relationship "
         "(single, one-to-many), delete relationship, begin/commit/abort; shapes = random, chains with a closing edge, "
         "diamonds, chain + ancestor-side define + extension + back edge without deletions in between; one Writer "
-        "value serves all operations outside / inside a transaction; after every op the raw tables (transaction view and committed view) and parents / children / "
+        "value serves all operations outside / inside a transaction; a quarter of the histories run on an ontology "
+        "whose relationship indexes failed to populate at open (injected iterator fault: parents traversal on the raw "
+        "scan fallback); after every op the raw tables (transaction view and committed view) and parents / children / "
         "parents-then-children / descendants of every identifier are compared. Non-trivial = at least 2 accepted "
         "relationships and (a refusal as cyclic or a resource deletion that removed an edge); distinct by hash.")
 TRUSTED = ["hook core/pkg/distribution/ontology/export_verif.go (VerifDescendants = dagWriter.retrieveDescendants, "
@@ -124,9 +126,17 @@ def gen_case(rng):
                         "bs": [rng.choice(u) for _ in range(rng.choice([0, 1, 2, 2, 3]))]})
         elif x < 0.68:
             ops.append({"op": "delrel", "a": rng.choice(u), "b": rng.choice(u), "ty": rng.choice(RTYPES)})
-        elif x < 0.78:
+        elif x < 0.74:
             ops.append({"op": "delres", "a": rng.choice(u)})
-        elif x < 0.86:
+        elif x < 0.80:
+            # batches mixing missing, existing and repeated ids; often an overlapping retry of the previous batch
+            bs = [rng.choice(u) for _ in range(rng.choice([0, 1, 2, 2, 3]))]
+            ops.append({"op": "delmany", "bs": bs})
+            if rng.random() < 0.4:
+                ops.append({"op": "delmany", "bs": bs + [rng.choice(u)]})
+        elif x < 0.83:
+            ops.append({"op": "defmanyres", "bs": [rng.choice(u) for _ in range(rng.choice([0, 1, 2, 3]))]})
+        elif x < 0.88:
             ops.append({"op": "defres", "a": rng.choice(u)})
         elif in_tx:
             ops.append({"op": rng.choice(["commit", "commit", "abort"])})
@@ -136,7 +146,8 @@ def gen_case(rng):
             in_tx = True
     if in_tx and rng.random() < 0.7:
         ops.append({"op": rng.choice(["commit", "abort"])})
-    return {"ids": u, "ops": ops}
+    # flavour: the relationship indexes failed to populate at open, ParentsTraverser runs on its raw scan
+    return {"ids": u, "ops": ops, "scan": rng.random() < 0.25}
 
 
 def gen_sep_case(rng):
@@ -210,6 +221,10 @@ def c_op(o):
         return "DefRel %s %s %s" % (c_id(o["a"]), c_ty(o["ty"]), c_id(o["b"]))
     if k == "defmany":
         return "DefMany %s %s %s" % (c_id(o["a"]), c_ty(o["ty"]), clist([c_id(b) for b in o.get("bs") or []]))
+    if k == "delmany":
+        return "DelMany %s" % clist([c_id(b) for b in o.get("bs") or []])
+    if k == "defmanyres":
+        return "DefManyRes %s" % clist([c_id(b) for b in o.get("bs") or []])
     if k == "delrel":
         return "DelRel %s %s %s" % (c_id(o["a"]), c_ty(o["ty"]), c_id(o["b"]))
     return {"begin": "Begin", "commit": "Commit", "abort": "Abort"}[k]
@@ -265,14 +280,15 @@ def nontrivial(case, r):
                 oks += 1
             if s["err"] == "cyclic":
                 cyc += 1
-        if o["op"] == "delres" and n < prev:
+        if o["op"] in ("delres", "delmany") and n < prev:
             dele += 1
         prev = n
     return oks >= 2 and (cyc >= 1 or dele >= 1)
 
 
 def histogram(case, r):
-    ks = ["universe=%d" % len(case["ids"]), "ops=%d" % (len(case["ops"]) // 5 * 5)]
+    ks = ["universe=%d" % len(case["ids"]), "ops=%d" % (len(case["ops"]) // 5 * 5),
+          "flavour=%s" % ("scan-fallback" if case.get("scan") else "indexed")]
     if any(has_sep(i) for i in case["ids"]):
         ks.append("has_sep_id")
     if any(not i["t"] or not i["k"] for i in case["ids"]):
@@ -288,10 +304,10 @@ def op_ids(o):
     out = []
     for k in ("a", "b"):
         if k in o and o["op"] not in ("begin", "commit", "abort"):
-            if k == "b" and o["op"] in ("defres", "delres", "defmany"):
+            if o["op"] in ("delmany", "defmanyres") or (k == "b" and o["op"] in ("defres", "delres", "defmany")):
                 continue
             out.append(o[k])
-    if o["op"] == "defmany":
+    if o["op"] in ("defmany", "delmany", "defmanyres"):
         out += o.get("bs") or []
     return out
 
@@ -364,4 +380,4 @@ LEVEL_NOTE = ("Trusted: Coq kernel/vm_compute; hand-written model (tied by corre
               "and repaired by fix: commits (C16_f10_prefix_refuted / C16_f11_self_edge_refuted keep the witnesses). "
               "Partial: identifiers containing '->' (reachable through free-form device keys) break every clause "
               "(C16_sep_*_refuted) — known finding F20, not a small fix. Not modelled: interleaved transactions, "
-              "DeleteManyResources / DefineManyResources / Delete*RelationshipsOfType / WhereTypes, resource payloads.")
+              "Delete*RelationshipsOfType / WhereTypes, resource payloads.")
